@@ -1007,3 +1007,39 @@ Lemma sshsig_host_cert_user :
   sshsig_validate (fun _ _ _ => true) (fun _ => true) (fun _ _ => true) (fun _ => true) (fun _ _ => [])
                   [] false w_raw [97] [w_entry] 50 = SReject.
 Proof. vm_compute. reflexivity. Qed.
+
+(* ------------------------------------------------------------------------------------------ *)
+(* time values: a trailing Z names the UTC instant whatever the process time zone is; a
+   zone-less value is local time, i.e. the UTC reading shifted by the zone offset *)
+
+Lemma parse_time_abs_Z ds off : parse_time_abs ds true off = parse_time_abs ds true 0.
+Proof. unfold parse_time_abs. destruct (civil_seconds ds); reflexivity. Qed.
+
+Lemma parse_time_abs_local ds off :
+  parse_time_abs ds false off =
+  match parse_time_abs ds true 0 with Some t => Some (t + off) | None => None end.
+Proof. unfold parse_time_abs. destruct (civil_seconds ds); reflexivity. Qed.
+
+Lemma parse_time_zone_independent s off off' now :
+  match s with TAbs _ false => False | _ => True end ->
+  parse_time s off now = parse_time s off' now.
+Proof.
+  destruct s as [t|ds z|d|]; simpl; try reflexivity.
+  destruct z; [intros _; rewrite parse_time_abs_Z, (parse_time_abs_Z ds off'); reflexivity | intros []].
+Qed.
+
+(* the window decision of an allowed-signers entry / a generated certificate whose limits are
+   Z-times does not depend on the zone, and is the comparison with the UTC instants *)
+Lemma window_decision_Z dsa dsb off pnow now ta tb :
+  parse_time_abs dsa true 0 = Some ta -> parse_time_abs dsb true 0 = Some tb ->
+  (window_decision (Some (TAbs dsa true)) (Some (TAbs dsb true)) off pnow now = 0 <-> ta <= now < tb).
+Proof.
+  intros Ha Hb. unfold window_decision, parse_time. rewrite (parse_time_abs_Z dsa off), (parse_time_abs_Z dsb off), Ha, Hb.
+  destruct (now <? ta) eqn:E1; destruct (tb <=? now) eqn:E2; cbn [negb andb];
+    rewrite ?Z.ltb_lt, ?Z.ltb_ge, ?Z.leb_le, ?Z.leb_gt in *; split; intros; try lia; try discriminate; reflexivity.
+Qed.
+
+Lemma civil_epoch : civil_seconds [49;57;55;48;48;49;48;49] = Some 0.
+Proof. vm_compute. reflexivity. Qed.
+Lemma civil_T0 : civil_seconds [50;48;50;51;49;49;49;52;50;50;49;51;50;48] = Some 1700000000.
+Proof. vm_compute. reflexivity. Qed.
